@@ -211,7 +211,8 @@ def gen_plan(rng):
                     op['layout'] = layout
                     op['size'] = total
 
-    probe = {'block_size': bs, 'ops': ops, 'policy': policy}
+    probe = {'block_size': bs, 'ops': ops, 'policy': policy,
+             'srv_io': srv_io}
 
     if est_requests(probe) > 600:
         policy['short_reads'] = [500, 1000]
@@ -219,6 +220,10 @@ def gen_plan(rng):
     while est_requests(probe) > 600:
         big = max(ops, key=lambda o: o['size'])
         big['size'] //= 2
+
+        if big['op'] == 'selfcopy':
+            big['size'] = max(big['size'], 1)
+            big['off'] = min(big['off'], big['size'])
 
         if 'layout' in big:
             # keep the layout in step with the size
